@@ -45,7 +45,7 @@ pub open spec fn ins_point(s: Seq<R>, k: int, v: real) -> bool {
 // next_half with its function pointer resolved to find_index (the recursion is find_index <-> next_half)
 //@extract src/methods/smm.rs fn:next_half rename=next_half_fi
 //@sig pub fn next_half_fi(value: ValueType, slice: &[ValueType], padding: usize) -> (r: usize)
-	requires slice@.len() >= 1, sorted(slice@), contains_num(slice@, value@), padding + slice@.len() <= 0xffff_ffff_ffff
+	requires slice@.len() >= 1, sorted(slice@), contains_num(slice@, value@), padding + slice@.len() <= usize::MAX
 	ensures padding <= r < padding + slice@.len(), slice@[r - padding]@ == value@,
 	decreases slice@.len(), 0int
 //@replace &value == get(slice, half) ==> value == *get_at(slice, half)
@@ -69,7 +69,7 @@ pub open spec fn ins_point(s: Seq<R>, k: int, v: real) -> bool {
 	}
 //@end
 //@extract src/methods/smm.rs fn:find_index
-	requires slice@.len() >= 1, sorted(slice@), contains_num(slice@, value@), padding + slice@.len() <= 0xffff_ffff_ffff
+	requires slice@.len() >= 1, sorted(slice@), contains_num(slice@, value@), padding + slice@.len() <= usize::MAX
 	ensures padding <= r < padding + slice@.len(), slice@[r - padding]@ == value@,
 	decreases slice@.len(), 1int
 //@replace next_half(value, slice, padding, find_index) ==> next_half_fi(value, slice, padding)
@@ -78,7 +78,7 @@ pub open spec fn ins_point(s: Seq<R>, k: int, v: real) -> bool {
 // next_half with its function pointer resolved to find_insert_index
 //@extract src/methods/smm.rs fn:next_half rename=next_half_fii
 //@sig pub fn next_half_fii(value: ValueType, slice: &[ValueType], padding: usize) -> (r: usize)
-	requires slice@.len() >= 1, sorted(slice@), padding + slice@.len() <= 0xffff_ffff_ffff
+	requires slice@.len() >= 1, sorted(slice@), padding + slice@.len() <= usize::MAX
 	ensures padding <= r <= padding + slice@.len(), ins_point(slice@, r - padding, value@),
 	decreases slice@.len(), 0int
 //@replace &value == get(slice, half) ==> value == *get_at(slice, half)
@@ -111,7 +111,7 @@ pub open spec fn ins_point(s: Seq<R>, k: int, v: real) -> bool {
 	}
 //@end
 //@extract src/methods/smm.rs fn:find_insert_index
-	requires sorted(slice@), padding + slice@.len() <= 0xffff_ffff_ffff
+	requires sorted(slice@), padding + slice@.len() <= usize::MAX
 	ensures padding <= r <= padding + slice@.len(), ins_point(slice@, r - padding, value@),
 	decreases slice@.len(), 1int
 //@replace next_half(value, slice, padding, find_insert_index) ==> next_half_fii(value, slice, padding)
